@@ -17,6 +17,7 @@ package main
 import (
 	"flag"
 	"fmt"
+	"net"
 	"os"
 	"reflect"
 	"strings"
@@ -108,11 +109,12 @@ func (c *controller) SetBalancer(l log.Logger, name string, svcRo *v1.Service, _
 		}
 	}
 
-	if len(prevIPs) != 0 && !c.isServiceAllocated(name) {
+	if len(prevIPs) != 0 && gaveUpIP(prevIPs, c.ips.IPs(name)) {
 		// Only reprocess all if the previous IP(s) are still contained within a pool.
 		if c.ips.PoolForIP(prevIPs) != nil {
-			// convergeBalancer may deallocate our service and this means it did it.
-			// if the service was deallocated, it may have left room
+			// convergeBalancer may deallocate our service, or move it to other IP(s),
+			// and this means it did it.
+			// if the service gave up an IP, it may have left room
 			// for another one, so we reprocess
 			level.Info(l).Log("event", "serviceUpdated", "msg", "removed loadbalancer from service, services will be reprocessed")
 			syncStateRes = controllers.SyncStateReprocessAll
@@ -139,6 +141,23 @@ func (c *controller) SetBalancer(l log.Logger, name string, svcRo *v1.Service, _
 
 	level.Info(l).Log("event", "serviceUpdated", "msg", "service is not updated")
 	return syncStateRes
+}
+
+// gaveUpIP tells if any of the previously allocated IPs is not allocated anymore.
+func gaveUpIP(prevIPs, curIPs []net.IP) bool {
+	for _, prev := range prevIPs {
+		kept := false
+		for _, cur := range curIPs {
+			if cur.Equal(prev) {
+				kept = true
+				break
+			}
+		}
+		if !kept {
+			return true
+		}
+	}
+	return false
 }
 
 func (c *controller) SetPools(l log.Logger, pools *config.Pools) controllers.SyncState {
